@@ -40,9 +40,11 @@ func genOpt(nonZeroOpen bool) func(t *rapid.T, thorough bool) OptCase {
 			if thorough {
 				maxLen = 200
 			}
-		case c.Local:
+		case c.Local && rapid.IntRange(0, 3).Draw(t, "nonPositiveGaps") != 0:
 			c.M = genMatSpec(t, matOpts{openLo: 0, openHi: 0, gapLo: -6, gapHi: 0})
 		default:
+			// C09 is stated for any zero-gap-open matrix: positive gap scores included, for
+			// Local as well as for Global.
 			c.M = genMatSpec(t, matOpts{openLo: 0, openHi: 0, gapLo: -6, gapHi: 3})
 		}
 		c.Mutate = genMatMutation(t, c.M)
@@ -133,7 +135,18 @@ func optimalOnce(c OptCase, o *Obs, m align.SubstitutionMatrix, rm ref.Matrix, w
 	if err != nil {
 		return err
 	}
-	if err := checkValidity(c.AlignCase, rm, res, o); err != nil {
+	// The validity clause (C08) is stated for Local only with non-positive gap scores; C09's
+	// optimality clause holds for any zero-gap-open matrix, so with positive gap scores only the
+	// score is compared.
+	positiveGap := false
+	for k, v := range rm {
+		if (k[0] == 255) != (k[1] == 255) && v > 0 {
+			positiveGap = true
+		}
+	}
+	if c.Local && positiveGap {
+		o.Class("local with positive gap scores (score only)")
+	} else if err := checkValidity(c.AlignCase, rm, res, o); err != nil {
 		return err
 	}
 	opt := ref.Optimum(c.A, c.B, rm, c.Local)
